@@ -26,7 +26,7 @@ fn main() {
     let stdout = std::io::stdout();
     // formula- and tool-level generators can meet an evaluation that does not return: their
     // output is flushed line by line so that everything before the hang is still checked
-    let line_buffered = matches!(prop, "C01" | "C05" | "C06" | "C09" | "C10" | "C11" | "C12" | "C14" | "C15" | "C16" | "C17" | "C18");
+    let line_buffered = matches!(prop, "C01" | "C04" | "C05" | "C06" | "C09" | "C10" | "C11" | "C12" | "C14" | "C15" | "C16" | "C17" | "C18");
     let mut out: Box<dyn Write> = if line_buffered {
         Box::new(std::io::LineWriter::new(stdout.lock()))
     } else {
@@ -52,7 +52,7 @@ fn main() {
         "C18" => gen::c18(&mut out, tier, &mut rng, &mut st),
         "C02" => bddprops::c02(&mut out, tier, &mut rng, &mut st),
         "C03" => bddprops::c03(&mut out, tier, &mut rng, &mut st),
-        "C04" => bddprops::c04(&mut out, tier, &mut rng, &mut st),
+        "C04" => { bddprops::c04(&mut out, tier, &mut rng, &mut st); formula::c04_lang(&mut out, tier, &mut rng, &mut st) }
         "C05" => { bddprops::c05(&mut out, tier, &mut rng, &mut st); formula::c05_lang(&mut out, tier, &mut rng, &mut st) }
         "C07" => bddprops::c07(&mut out, tier, &mut rng, &mut st),
         "C20" => bddprops::c20(&mut out, tier, &mut rng, &mut st),
